@@ -6,9 +6,16 @@
     the real reader.  corr_ok: model edits = real edits, model reader = real reader
     on the real bytes, and reading the MODEL writer's bytes gives the same
     observation as reading the real bytes (bytes themselves are not compared).
-    prop_ok: the observation equals the expectation computed from the history. *)
+    prop_ok: the observation equals what the property states for the history:
+    every result with its name, iteration count, measurements as written and
+    exactly its file configuration, every unit-metadata record, nothing else, no
+    error.  The expectation is written down from the records (declarative,
+    Model/RoundTripSpec.v); it runs neither the writer nor the reader model.
+    known_ok: the same predicate with exactly the recorded deviations of C01's
+    known findings allowed (records the line format cannot express; a repeated
+    unit-metadata record; a re-printed line over the scanner's limit). *)
 From Perf Require Import Base.Bytes Base.Sx Base.B64 Base.SxF Base.Utf8 Base.Unicode
-  Model.Name Model.Extract Model.Units Model.Reader Model.Files Model.Writer Corr.RunC02.
+  Model.Name Model.Extract Model.Units Model.Reader Model.Files Model.Writer Model.RoundTripSpec Corr.RunC02.
 
 (** what the property compares: positions dropped, measurements as written,
     configuration = the file part, as a map *)
@@ -162,21 +169,128 @@ Fixpoint edits_ok (m : cmap) (steps : list hstep) : bool :=
   | _ :: steps' => edits_ok m steps'
   end.
 
-(** what reading the written stream must give *)
-Fixpoint expect_hist (seen : list (bytes * bytes * bytes)) (steps : list hstep) : list ob :=
+(** what reading the written stream must give.
+    [relax = false] (the property): every result comes back with exactly its
+    file configuration, every unit-metadata record comes back, SyntaxError
+    records are not written (the writer documents that it ignores them).
+    [relax = true] (known findings, exactly their recorded deviations):
+    - C01_value_ends_with_CR, C01_value_starts_with_blank, C01_value_contains_LF,
+      C01_empty_file_value, C01_file_key_not_a_key: the file configuration that
+      comes back is [carried_cfg] of the one written, plus the keys set by the
+      lines after the first LF of a file value ([inj], accumulated: the writer
+      never deletes a key it does not know).  Such a key must not be a key of the
+      history and must have one value throughout, a line after an LF must be
+      recognisably inert or of the form key: value - otherwise the relaxed judge
+      gives no expectation (None: the case fails);
+    - C01_result_without_measurements, C01_name_with_white_space: such a result
+      comes back as one syntax-error record;
+    - C01_repeated_unit_metadata: a record whose (tidied unit, key) was already
+      written does not come back if the value is the same and comes back as a
+      syntax error (kind 8) if it differs. *)
+Notation carried := (carried_cfg go_is_space go_is_lower go_is_upper).
+
+Definition hist_keys (steps : list hstep) : list bytes :=
+  flat_map (fun s => match s with HRes _ _ _ _ cfgobs => map c_key cfgobs | _ => [] end) steps.
+
+Fixpoint add_injected (hk : list bytes) (ls : list bytes) (inj : list cfg) : option (list cfg) :=
+  match ls with
+  | [] => Some inj
+  | l :: ls' =>
+      match injected_of_line l with
+      | LInert => add_injected hk ls' inj
+      | LSets k v =>
+          if existsb (beq k) hk then None
+          else match cfg_lookup inj k with
+               | Some c => if beq (c_val c) v then add_injected hk ls' inj else None
+               | None => add_injected hk ls' (inj ++ [mkCfg k v true])
+               end
+      | LUnknown => None
+      end
+  end.
+
+Fixpoint expect_hist (relax : bool) (hk : list bytes) (seen : list (bytes * bytes * bytes)) (inj : list cfg)
+         (steps : list hstep) : option (list ob) :=
   match steps with
-  | [] => []
+  | [] => Some []
   | HRes _ name it vals cfgobs :: steps' =>
-      ObRes name it (map owritten vals) (filter c_file cfgobs) :: expect_hist seen steps'
+      let F := filter c_file cfgobs in
+      if relax then
+        do inj' <- add_injected hk (flat_map (fun c => value_rest_lines (c_val c)) F) inj;
+        do rest <- expect_hist relax hk seen inj' steps';
+        Some ((if res_expressible go_is_space name vals
+               then ObRes name it (map owritten vals) (carried F ++ inj')
+               else ObErr 0) :: rest)
+      else
+        do rest <- expect_hist relax hk seen inj steps';
+        Some (ObRes name it (map owritten vals) F :: rest)
   | HUnit _ k o v :: steps' =>
       let tu := spec_unit go_is_space o in
-      match find (fun e => beq (fst (fst e)) tu && beq (snd (fst e)) k) seen with
-      | Some e => if beq (snd e) v then expect_hist seen steps'
-                  else ObErr 8 :: expect_hist seen steps'
-      | None => ObUnit tu k o v :: expect_hist ((tu, k, v) :: seen) steps'
-      end
-  | HErr :: steps' => expect_hist seen steps'
+      if relax then
+        match find (fun e => beq (fst (fst e)) tu && beq (snd (fst e)) k) seen with
+        | Some e => do rest <- expect_hist relax hk seen inj steps';
+                    Some (if beq (snd e) v then rest else ObErr 8 :: rest)
+        | None => do rest <- expect_hist relax hk ((tu, k, v) :: seen) inj steps';
+                  Some (ObUnit tu k o v :: rest)
+        end
+      else
+        do rest <- expect_hist relax hk seen inj steps';
+        Some (ObUnit tu k o v :: rest)
+  | HErr :: steps' => expect_hist relax hk seen inj steps'
   end.
+
+Definition hist_ok (relax : bool) (steps : list hstep) (got : list ob) : bool :=
+  match expect_hist relax (hist_keys steps) [] [] steps with
+  | Some e => obs_eqb e got
+  | None => false
+  end.
+
+(** the text routes: [exp] is the stream that must come back (what the first
+    reading delivered, minus syntax errors, filtered).  Relaxed
+    (C01_value_ends_with_CR, C01_reprinted_line_exceeds_scanner_limit): file
+    values come back as [carried_cfg] says (a reader never delivers a value with
+    LF or a leading blank, so this removes one final CR), and the records from
+    the first result on whose benchmark line as printed reaches 64 KiB do not
+    come back, the reading ending with an error - exactly then. *)
+Definition ob_too_long (o : ob) : bool :=
+  match o with
+  | ObRes n i w _ => line_too_long (bench_line_len n (print_Z i) (map (fun p => (fmt_of fmt (fst p), snd p)) w))
+  | _ => false
+  end.
+Fixpoint cut_long (l : list ob) : list ob * bool :=
+  match l with
+  | [] => ([], false)
+  | o :: l' => if ob_too_long o then ([], true)
+               else let '(a, b) := cut_long l' in (o :: a, b)
+  end.
+Definition carried_ob (o : ob) : ob :=
+  match o with ObRes n i w c => ObRes n i w (carried c) | _ => o end.
+Definition is_some {A} (o : option A) : bool := match o with Some _ => true | None => false end.
+
+(** mechanism 3 of the property (shortest %v formatting paired with a correctly
+    rounding parser) is a HYPOTHESIS of the theorems ([bench_ok] in WFres,
+    [recs_reprint] on the text route), not proved: fmt's %v and bytesconv are
+    oracles.  It is therefore validated on every case: the printed iteration
+    count is read back by Atoi, and every printed measurement is one field that
+    the reader's atof reads back to the same float (bit for bit, NaNs
+    identified).  Lines over the scanner's limit are exempt (they are outside
+    [recs_reprint], and their fields are not in the oracle table). *)
+Definition one_field (f : bytes) : bool := negb (is_nil f) && name_expressible go_is_space f.
+Definition numbers_reprint (o : ob) : bool :=
+  match o with
+  | ObRes _ it w _ =>
+      ob_too_long o
+      || (match orc_atoi orc (print_Z it) with Some z => Z.eqb z it | None => false end
+          && forallb (fun p : b64 * bytes =>
+               let f := fmt_of fmt (fst p) in
+               one_field f && match atof (orc_pf orc) f with Some y => b64_same y (fst p) | None => false end) w)
+  | _ => true
+  end.
+
+Definition text_ok (relax : bool) (exp got : list ob) (rberr : option Z) : bool :=
+  if relax then
+    let '(pre, long) := cut_long exp in
+    obs_eqb (map carried_ob pre) got && Bool.eqb long (is_some rberr)
+  else negb (is_some rberr) && obs_eqb exp got.
 
 Definition read_model (b : bytes) : list record * option Z :=
   let '(rs, e, _) := rf rs_empty out_name [] b in (rs, e).
@@ -243,12 +357,16 @@ Definition corr_ok (c : case) : bool :=
   | KHist orc fmt steps out rb rberr =>
       let '(ok, ls) := run_hist cs_empty w_init steps in
       ok && reader_agrees orc out rb rberr && model_bytes_agree orc (emit_lines (fmt_of fmt) ls) rb
+      && forallb (fun st => match st with
+                            | HRes _ name it vals _ => numbers_reprint orc fmt (ObRes name it (map owritten vals) [])
+                            | _ => true end) steps
   | KText orc fmt fs paths r1 out rb rberr =>
       let '(rs, e, _) := files_run go_is_space go_is_lower go_is_upper (orc_atoi orc) (orc_pf orc) fs true paths in
       forallb (fun pc => orc_complete orc (snd pc)) fs
       && list_eqb2 (rec_eqb cfg_list_eqb) rs r1
       && reader_agrees orc out rb rberr
       && model_bytes_agree orc (benchfilter_loop (fmt_of fmt) Some rs) rb
+      && forallb (fun o => numbers_reprint orc fmt (ob_of_orec o)) r1
   | KBin orc fmt fs paths stdin q r1 exit out rb rberr =>
       let rs :=
         if stdin then
@@ -263,36 +381,40 @@ Definition corr_ok (c : case) : bool :=
       && list_eqb2 (rec_eqb cfg_list_eqb) rs r1
       && reader_agrees orc out rb rberr
       && model_bytes_agree orc (benchfilter_loop (fmt_of fmt) (keep_res q) rs) rb
+      && forallb (fun o => numbers_reprint orc fmt (ob_of_orec o)) (flat_map (keep_orec q) r1)
   | KReset orc fmt files r1 out rb rberr =>
       let rs := reset_run orc rs_empty files in
       forallb (fun f => orc_complete orc (snd f)) files
       && list_eqb2 (rec_eqb cfg_list_eqb) rs r1
       && reader_agrees orc out rb rberr
       && model_bytes_agree orc (benchfilter_loop (fmt_of fmt) Some rs) rb
+      && forallb (fun o => numbers_reprint orc fmt (ob_of_orec o)) r1
   end.
 
-Definition prop_ok (c : case) : bool :=
+Definition prop_gen (relax : bool) (c : case) : bool :=
   match c with
   | KPanic => false
   | KHist orc fmt steps out rb rberr =>
       edits_ok [] steps
-      && match rberr with None => true | Some _ => false end
-      && obs_eqb (expect_hist [] steps) (map ob_of_orec rb)
+      && negb (is_some rberr)
+      && hist_ok relax steps (map ob_of_orec rb)
   | KText orc fmt fs paths r1 out rb rberr =>
-      match rberr with None => true | Some _ => false end
-      && obs_eqb (map ob_of_orec (filter (fun o => negb (is_err o)) r1)) (map ob_of_orec rb)
+      text_ok fmt relax (map ob_of_orec (filter (fun o => negb (is_err o)) r1)) (map ob_of_orec rb) rberr
   | KBin orc fmt fs paths stdin q r1 exit out rb rberr =>
       (* the command succeeds and its output reads back as exactly the filtered stream *)
       Z.eqb exit 0
-      && match rberr with None => true | Some _ => false end
-      && obs_eqb (map ob_of_orec (flat_map (keep_orec q) r1)) (map ob_of_orec rb)
+      && text_ok fmt relax (map ob_of_orec (flat_map (keep_orec q) r1)) (map ob_of_orec rb) rberr
   | KReset orc fmt files r1 out rb rberr =>
-      match rberr with None => true | Some _ => false end
-      && obs_eqb (map ob_of_orec (filter (fun o => negb (is_err o)) r1)) (map ob_of_orec rb)
+      text_ok fmt relax (map ob_of_orec (filter (fun o => negb (is_err o)) r1)) (map ob_of_orec rb) rberr
   end.
+
+Definition prop_ok : case -> bool := prop_gen false.
+(** the judge of C01's known findings: everything [prop_ok] demands except
+    exactly their recorded deviations (see [expect_hist], [text_ok]) *)
+Definition known_ok : case -> bool := prop_gen true.
 
 Definition run_case (s : sx) : N :=
   match decode s with
-  | Some c => code_of (corr_ok c) (prop_ok c)
+  | Some c => code_of3 (corr_ok c) (prop_ok c) (known_ok c)
   | None => code_undecodable
   end.
